@@ -32,8 +32,8 @@ GROUPS = {
                ["C04", "C01", "C08", "C13"], True),
     "interp": (["src/bytecode_machine.cpp", "src/bytecode_machine.hpp", "src/vm_interpreted.cpp", "src/vm_interpreted_light.cpp", "src/instruction.hpp"], ["C05", "C04", "C07", "C02"], True),
     "vmcore": (["src/virtual_machine.cpp", "src/vm_compiled.cpp", "src/vm_compiled_light.cpp", "src/randomx.cpp", "src/blake2_generator.cpp"], ["C02", "C03", "C01", "C13", "C04", "C16", "C15", "C14", "C08", "C11"], True),
-    "dataset": (["src/dataset.cpp", "src/superscalar.cpp", "src/reciprocal.c"], ["C09", "C08", "C10", "C18", "C02"], True),
-    "hashes": (["src/aes_hash.cpp", "src/soft_aes.cpp", "src/blake2/blake2b.c", "src/argon2_core.c", "src/argon2_ref.c", "src/argon2_ssse3.c", "src/argon2_avx2.c"], ["C12", "C11", "C10", "C02"], True),
+    "dataset": (["src/dataset.cpp", "src/superscalar.cpp", "src/reciprocal.c"], ["C09", "C08", "C10", "C18", "C02", "C03"], True),
+    "hashes": (["src/aes_hash.cpp", "src/soft_aes.cpp", "src/blake2/blake2b.c", "src/argon2_core.c", "src/argon2_ref.c", "src/argon2_ssse3.c", "src/argon2_avx2.c"], ["C12", "C11", "C10", "C02", "C03"], True),
     "memory": (["src/allocator.cpp", "src/virtual_memory.c"], ["C15", "C16", "C06", "C01"], True),
     "portable": (["src/instructions_portable.cpp", "src/intrin_portable.h"], ["C17", "C05", "C13"], True),
     "a64": (["src/jit_compiler_a64.cpp", "src/jit_compiler_a64_static.S"], ["C19"], False),
